@@ -36,7 +36,8 @@ class OsuNoteMeta:
         Returns:
             The actual column value, starting from 0
         """
-        return max(min(int(x_axis // (512 / keys)), keys - 1), 0)
+        # Multiply first: 512 / keys is not exact for most key counts (256 // 51.2 == 4)
+        return max(min(int(x_axis * keys // 512), keys - 1), 0)
 
     @staticmethod
     def column_to_x_axis(column: float, keys: int) -> int:
